@@ -5,7 +5,7 @@ import SaModel.Lemmas.C04Schema
 import SaModel.Lemmas.C04Reader
 import SaModel.Lemmas.C04Root
 import SaModel.Lemmas.C04Safe
-import SaModel.Props.C01
+import SaModel.Props.C01Obs
 import SaModel.Props.C02
 import SaModel.Props.C08
 import SaModel.Props.C13
@@ -22,8 +22,9 @@ The end-to-end statement composes four facts about the REAL model functions (no 
 
   (H8, C08)  the tracer returns the documented mapping:   `C04_fromType_mapping` (every type, enums included), and it
              succeeds on every walkable, mappable type within the pass budget: `C04_fromType_ok`
-  (H1, C01)  the builder refines the documented mapping:  `Props.C01.C01_build_decode` + `Props.C03.C03_wf`, their schema
-             side conditions proved for every traced schema (`mapping_side`), `Safe` as the decidable condition `safeFs`
+  (H1, C01)  the builder refines the documented mapping:  `Props.C01.C01_build_decode'` + `Props.C01.C03_wf'` (the hidden-rows
+             refinement, Props/C01Obs.lean: NO `Safe` hypothesis), their schema side conditions (`SchemaOKF`, `coveredF`)
+             proved for every traced schema (`mapping_side`)
   (H2, C02)  the reader returns the cast of the decoded content: `Props.C02.read_typed_decode` with `cast_lvO`,
              `newFields_of_wf`, `utf8Ok_lvO`
   (Hinv)     **the Rust → Arrow mapping is injective up to the documented normalisation**:
@@ -155,14 +156,18 @@ theorem C04_fromType_ok (c : Trace.Code) (O : Trace.Options) (h0 : O.overwrites 
     Trace.fromType c O (toTraceTy (.struct n fs)) = .ok (mappingFields (viewOpts O) fs).toList :=
   fromType_ok c O h0 n fs hw hm hb
 
-/-- **C01's `Safe` from a decidable condition on the traced schema** (`safeFs`: no dictionary with non-nullable keys
-below a nullable struct, through struct children and the first variant of a union; `Lemmas/C04SafeDT.lean`) -/
-theorem C04_safe_traced (o : TraceOpts) (fs : TFields) (fields : List Field) (hfields : fields = (mappingFields o fs).toList)
-    (hs : safeFs (mappingFields o fs) = true) : ∀ root0, newRoot fields = .ok root0 → Safe root0 := by
+/-- C01's `Safe` of the fresh builder of a traced schema IS the decidable condition `safeFs` of the schema (no dictionary
+with non-nullable keys below a nullable struct, through struct children and the first variant of a union;
+`Lemmas/C04SafeDT.lean`).  NOT a hypothesis of any theorem of C04 any more (the builder side is the hidden-rows refinement);
+kept to state what the former theorems excluded: `exSafeFalse` in Props/C04Accept.lean is outside `Safe` and inside the
+present theorems. -/
+theorem C04_safe_traced_iff (o : TraceOpts) (fs : TFields) (fields : List Field) (hfields : fields = (mappingFields o fs).toList) :
+    ∀ root0, newRoot fields = .ok root0 → (Safe root0 ↔ safeFs (mappingFields o fs) = true) := by
   have hside := sideFs_toList (mappingFields o fs) (mappingFields_side o fs)
   rw [← hfields] at hside
-  exact safe_of_schema fields (List.all_eq_true.mpr fun f hf => (hside f hf).2)
-    (by rw [hfields, Fields.ofList_toList]; exact hs)
+  intro root0 h0
+  have := safe_schema_iff fields (List.all_eq_true.mpr fun f hf => (hside f hf).2) root0 h0
+  rwa [hfields, Fields.ofList_toList] at this
 
 /-- the core of the round trip: `from_marrow`'s checks pass with record count `vs.length`, the root reader is
 constructed, and the typed read of every index returns the normalised value (`C04_roundtrip_partial`,
@@ -173,7 +178,6 @@ theorem C04_roundtrip_core (c : Trace.Code) (O : Trace.Options) (ext : Ext) (n :
     (hwt : ∀ v ∈ vs, wt (.struct n fs) v = true)
     (hsc : ∀ v ∈ vs, inScopeO (viewOpts O) (.struct n fs) v = true)
     (hext : Lemmas.C03.ExtOK ext)
-    (hsafe : ∀ root0, newRoot fields = .ok root0 → Safe root0)
     (hphys : Spec.wfFields (mappingFields (viewOpts O) fs) (zipCols fields arrs) vs.length = true →
       Read.physicalFields (zipCols fields arrs) = true)
     (hft : Trace.fromType c O (toTraceTy (.struct n fs)) = .ok fields)
@@ -195,12 +199,12 @@ theorem C04_roundtrip_core (c : Trace.Code) (O : Trace.Options) (ext : Ext) (n :
     intro x hx
     obtain ⟨v, hv, rfl⟩ := List.mem_map.mp hx
     exact ser_ok t v (hwt v hv)
-  obtain ⟨hlen, cols, hc1, hc2, hc3, hc4⟩ := Props.C01.C01_build_decode ext fields (vs.map (ser t)) arrs
+  obtain ⟨hlen, cols, hc1, hc2, hc3, hc4⟩ := Props.C01.C01_build_decode' ext fields (vs.map (ser t)) arrs
     (fun f hf => (hside f hf).1)
-    (List.all_eq_true.mpr fun f hf => (hside f hf).2) hsafe (fun x hx => Build.noRaw_ssa x (hser x hx).1)
+    (List.all_eq_true.mpr fun f hf => (hside f hf).2) (fun x hx => Build.noRaw_ssa x (hser x hx).1)
     (Or.inl fun x hx => (hser x hx).1) htm
-  obtain ⟨_, hwf⟩ := Props.C03.C03_wf ext fields (vs.map (ser t)) arrs
-    (fun f hf => (hside f hf).1) hsafe hext (fun x hx => (hser x hx).2) htm
+  obtain ⟨_, hwf⟩ := Props.C01.C03_wf' ext fields (vs.map (ser t)) arrs
+    (fun f hf => (hside f hf).1) (Or.inr (List.all_eq_true.mpr fun f hf => (hside f hf).2)) hext (fun x hx => (hser x hx).2) htm
   have hrl : (vs.map (ser t)).length = vs.length := List.length_map _
   -- the root reader
   have hcols : Spec.wfFields (mappingFields o fs) (zipCols fields arrs) vs.length = true := by
@@ -271,23 +275,22 @@ exactly the driver's `noneAtUnion` — `C04_inScopeU_iff` —, and the string-en
 `norm` is the documented collapse of `Some(None)` / `Some(())` to `None`, the identity elsewhere; `dvalOf` is the
 rendering of a typed value as the visitor calls of a typed read.
 
-`hsafe` is C01's `Safe` as a DECIDABLE condition on the traced schema (`safeFs (mappingFields (viewOpts O) fs)`:
-`C04_safe_traced`); it is false for a dictionary-encoded `String` directly below an `Option<struct>` (C01's known exclusion
-`dict_placeholder_unstable`, witness `exSafeFalse` below) and true whenever no Dictionary column occurs
-(`C04_roundtrip_nodict_partial`).
+NO `Safe` hypothesis (the former `hsafe : safeFs (mappingFields (viewOpts O) fs)`): a dictionary-encoded `String` directly
+below an `Option<struct>` — where C01's per-builder append-only statement is false (`dict_placeholder_unstable`; witness
+`exSafeFalse` in Props/C04Accept.lean) — is covered by the hidden-rows refinement (`C01_build_decode'`, `C03_wf'` through its
+`coveredF` alternative: every traced schema is `coveredF`).
 
 `_partial`, remaining hypotheses — exactly:
   `hphys`  `Read.physical`: the value count of every Dictionary column fits `i64` (true of any array in memory; Lean lists
            are unbounded and neither `Spec.wf` nor the builder invariant bounds the NUMBER of dictionary values);
   `hext`   the external chrono parsers return values in range (`ExtOK`; no temporal column occurs in a traced schema, but
-           `Props.C03.C03_wf` asks for it unconditionally). -/
+           `Props.C01.C03_wf'` asks for it unconditionally). -/
 theorem C04_roundtrip_partial (c : Trace.Code) (O : Trace.Options) (ext : Ext) (n : String) (fs : TFields) (vs : List Val)
     (fields : List Field) (arrs : List Arr)
     (h0 : O.overwrites = []) (hfrag : fragE (.struct n fs) = true) (hne : fs ≠ .nil)
     (hwt : ∀ v ∈ vs, wt (.struct n fs) v = true)
     (hsc : ∀ v ∈ vs, inScopeO (viewOpts O) (.struct n fs) v = true)
     (hext : Lemmas.C03.ExtOK ext)
-    (hsafe : safeFs (mappingFields (viewOpts O) fs) = true)
     (hphys : ∀ a ∈ arrs, Read.physical a = true)
     (hft : Trace.fromType c O (toTraceTy (.struct n fs)) = .ok fields)
     (htm : toMarrow ext fields (vs.map (ser (.struct n fs))) = .ok arrs) :
@@ -295,7 +298,6 @@ theorem C04_roundtrip_partial (c : Trace.Code) (O : Trace.Options) (ext : Ext) (
       readRecord (toTarget (.struct n fs)) fields arrs i = .ok (dvalOf (.struct n fs) (norm (.struct n fs) vs[i])) := by
   intro i hi
   obtain ⟨hacc, hnew, hread⟩ := C04_roundtrip_core c O ext n fs vs fields arrs h0 hfrag hne hwt hsc hext
-    (C04_safe_traced (viewOpts O) fs fields (C04_fromType_fields c O h0 n fs fields hft) hsafe)
     (fun _ => zip_physical fields arrs hphys) hft htm
   simp only [readRecord, hacc, bind, Except.bind]
   rw [hnew]
@@ -317,13 +319,11 @@ theorem C04_roundtrip_bulk_partial (c : Trace.Code) (O : Trace.Options) (ext : E
     (hwt : ∀ v ∈ vs, wt (.struct n fs) v = true)
     (hsc : ∀ v ∈ vs, inScopeO (viewOpts O) (.struct n fs) v = true)
     (hext : Lemmas.C03.ExtOK ext)
-    (hsafe : safeFs (mappingFields (viewOpts O) fs) = true)
     (hphys : ∀ a ∈ arrs, Read.physical a = true)
     (hft : Trace.fromType c O (toTraceTy (.struct n fs)) = .ok fields)
     (htm : toMarrow ext fields (vs.map (ser (.struct n fs))) = .ok arrs) :
     readAll (toTarget (.struct n fs)) fields arrs = .ok (vs.map fun v => dvalOf (.struct n fs) (norm (.struct n fs) v)) := by
   obtain ⟨hacc, hnew, hread⟩ := C04_roundtrip_core c O ext n fs vs fields arrs h0 hfrag hne hwt hsc hext
-    (C04_safe_traced (viewOpts O) fs fields (C04_fromType_fields c O h0 n fs fields hft) hsafe)
     (fun _ => zip_physical fields arrs hphys) hft htm
   simp only [readAll, hacc, bind, Except.bind]
   rw [hnew]
@@ -348,12 +348,11 @@ theorem C04_roundtrip_identity_partial (c : Trace.Code) (O : Trace.Options) (ext
     (hwt : ∀ v ∈ vs, wt (.struct n fs) v = true)
     (hsc : ∀ v ∈ vs, inScopeO (viewOpts O) (.struct n fs) v = true)
     (hext : Lemmas.C03.ExtOK ext)
-    (hsafe : safeFs (mappingFields (viewOpts O) fs) = true)
     (hphys : ∀ a ∈ arrs, Read.physical a = true)
     (hft : Trace.fromType c O (toTraceTy (.struct n fs)) = .ok fields)
     (htm : toMarrow ext fields (vs.map (ser (.struct n fs))) = .ok arrs) :
     readAll (toTarget (.struct n fs)) fields arrs = .ok (vs.map (dvalOf (.struct n fs))) := by
-  rw [C04_roundtrip_bulk_partial c O ext n fs vs fields arrs h0 hfrag hne hwt hsc hext hsafe hphys hft htm]
+  rw [C04_roundtrip_bulk_partial c O ext n fs vs fields arrs h0 hfrag hne hwt hsc hext hphys hft htm]
   congr 1
   apply List.map_congr_left
   intro v hv
@@ -364,31 +363,8 @@ grammar -/
 theorem C04_norm_eq_self (t : Ty) (v : Val) (hp : plainOpt t = true) (hw : wt t v = true) : norm t v = v :=
   norm_eq_self t v hp hw
 
-/-- the schema-level `Safe` condition holds whenever the traced schema has no Dictionary column: neither
-`string_dictionary_encoding` nor `enums_without_data_as_strings` -/
-theorem C04_safeFs_nodict (o : TraceOpts) (hd : o.stringDictionaryEncoding = false) (he : o.enumsWithoutDataAsStrings = false)
-    (fs : TFields) : safeFs (mappingFields o fs) = true :=
-  (safeFs_of_noDict _ (mappingFields_noDictE o hd he fs)).1
-
-/-- `C04_roundtrip_partial` with C01's `Safe` hypothesis DERIVED, for tracing options that produce no Dictionary column
-(`string_dictionary_encoding` and `enums_without_data_as_strings` off) -/
-theorem C04_roundtrip_nodict_partial (c : Trace.Code) (O : Trace.Options) (ext : Ext) (n : String) (fs : TFields) (vs : List Val)
-    (fields : List Field) (arrs : List Arr)
-    (h0 : O.overwrites = []) (hd : O.string_dictionary_encoding = false) (he : O.enums_without_data_as_strings = false)
-    (hfrag : fragE (.struct n fs) = true) (hne : fs ≠ .nil)
-    (hwt : ∀ v ∈ vs, wt (.struct n fs) v = true)
-    (hsc : ∀ v ∈ vs, inScopeO (viewOpts O) (.struct n fs) v = true)
-    (hext : Lemmas.C03.ExtOK ext)
-    (hphys : ∀ a ∈ arrs, Read.physical a = true)
-    (hft : Trace.fromType c O (toTraceTy (.struct n fs)) = .ok fields)
-    (htm : toMarrow ext fields (vs.map (ser (.struct n fs))) = .ok arrs) :
-    ∀ (i : Nat) (hi : i < vs.length),
-      readRecord (toTarget (.struct n fs)) fields arrs i = .ok (dvalOf (.struct n fs) (norm (.struct n fs) vs[i])) :=
-  C04_roundtrip_partial c O ext n fs vs fields arrs h0 hfrag hne hwt hsc hext
-    (C04_safeFs_nodict (viewOpts O) hd he fs) hphys hft htm
-
 /-- the bulk round trip for traced schemas WITHOUT Dictionary columns (`string_dictionary_encoding` and
-`enums_without_data_as_strings` off): `Safe` AND `Read.physical` are derived (`C04_safeFs_nodict`, `physical_traced`: every
+`enums_without_data_as_strings` off): `Read.physical` is derived (`physical_traced`: every
 well-formed array of a dictionary-free traced schema is physical); the only hypothesis left besides the documented ones is
 `hext` (discharged at the codec models in `C04_end_to_end_plain`) -/
 theorem C04_roundtrip_bulk_plain_partial (c : Trace.Code) (O : Trace.Options) (ext : Ext) (n : String) (fs : TFields) (vs : List Val)
@@ -402,7 +378,6 @@ theorem C04_roundtrip_bulk_plain_partial (c : Trace.Code) (O : Trace.Options) (e
     (htm : toMarrow ext fields (vs.map (ser (.struct n fs))) = .ok arrs) :
     readAll (toTarget (.struct n fs)) fields arrs = .ok (vs.map fun v => dvalOf (.struct n fs) (norm (.struct n fs) v)) := by
   obtain ⟨hacc, hnew, hread⟩ := C04_roundtrip_core c O ext n fs vs fields arrs h0 hfrag hne hwt hsc hext
-    (C04_safe_traced (viewOpts O) fs fields (C04_fromType_fields c O h0 n fs fields hft) (C04_safeFs_nodict (viewOpts O) hd he fs))
     (physical_traced (viewOpts O) hd he fs _ _) hft htm
   simp only [readAll, hacc, bind, Except.bind]
   rw [hnew]
@@ -478,7 +453,7 @@ example : exFields.length = 4 ∧ exArrs.length = 4 ∧ (∀ v ∈ exBatch, wt e
 
 example : ∀ (i : Nat) (hi : i < exBatch.length),
     readRecord (toTarget exFragRoot) exFields exArrs i = .ok (dvalOf exFragRoot (norm exFragRoot exBatch[i])) := by
-  exact C04_roundtrip_nodict_partial .fixed exO {} "Root" _ exBatch exFields exArrs rfl rfl rfl (by decide +kernel) (by simp)
+  exact C04_roundtrip_partial .fixed exO {} "Root" _ exBatch exFields exArrs rfl (by decide +kernel) (by simp)
     (by decide +kernel) (by decide +kernel) exExtOK (by decide +kernel) exTrace exBuild
 
 /-- what comes back for the first record: `a: Some(None)` has collapsed to `None` (the documented normalisation), the
@@ -497,7 +472,7 @@ def tfieldsOf : Ty → TFields
 /-- non-vacuity of the bulk form: the whole batch comes back, normalised, in order -/
 example : readAll (toTarget exFragRoot) exFields exArrs = .ok (exBatch.map fun v => dvalOf exFragRoot (norm exFragRoot v)) :=
   C04_roundtrip_bulk_partial .fixed exO {} "Root" _ exBatch exFields exArrs rfl (by decide +kernel) (by simp)
-    (by decide +kernel) (by decide +kernel) exExtOK (by decide +kernel) (by decide +kernel) exTrace exBuild
+    (by decide +kernel) (by decide +kernel) exExtOK (by decide +kernel) exTrace exBuild
 
 /-! non-vacuity of `C04_roundtrip_identity_partial` / `C04_norm_eq_self`: a record type without `Option` over a nullable
 position (an Option of a scalar, a tuple, a Vec of Option of struct): the batch comes back as it is -/
@@ -516,7 +491,7 @@ theorem exPlainBuild : toMarrow {} exPlainFields (exPlainBatch.map (ser exPlainR
 example : plainOpt exPlainRoot = true ∧ plainOpt exFragRoot = false ∧ exPlainFields.length = 3 := by decide +kernel
 example : readAll (toTarget exPlainRoot) exPlainFields exPlainArrs = .ok (exPlainBatch.map (dvalOf exPlainRoot)) :=
   C04_roundtrip_identity_partial .fixed exO {} "P" _ exPlainBatch exPlainFields exPlainArrs rfl (by decide +kernel)
-    (by decide +kernel) (by simp) (by decide +kernel) (by decide +kernel) exExtOK (by decide +kernel) (by decide +kernel)
+    (by decide +kernel) (by simp) (by decide +kernel) (by decide +kernel) exExtOK (by decide +kernel)
     exPlainTrace exPlainBuild
 
 example : wt exRoot exVal1 = true ∧ wt exRoot exVal2 = true := by decide +kernel
@@ -555,7 +530,7 @@ example : exEFields.length = 5 ∧ exEArrs.length = 5 := by decide +kernel
 
 example : ∀ (i : Nat) (hi : i < exEBatch.length),
     readRecord (toTarget exRoot) exEFields exEArrs i = .ok (dvalOf exRoot (norm exRoot exEBatch[i])) :=
-  C04_roundtrip_nodict_partial .fixed exEO {} "Root" _ exEBatch exEFields exEArrs rfl rfl rfl (by decide +kernel) (by simp)
+  C04_roundtrip_partial .fixed exEO {} "Root" _ exEBatch exEFields exEArrs rfl (by decide +kernel) (by simp)
     (by decide +kernel) (by decide +kernel) exExtOK (by decide +kernel) exETrace exEBuild
 
 /-! a data-less enum stored as STRINGS (`enums_without_data_as_strings`): `Option<Color>` = `None` is IN scope there (the
@@ -580,6 +555,6 @@ example : lvO (viewOpts exSO) exColor (.variant 1 .nil) = .str "Green".toUTF8.to
 example : ∀ (i : Nat) (hi : i < exSBatch.length),
     readRecord (toTarget exSRoot) exSFields exSArrs i = .ok (dvalOf exSRoot (norm exSRoot exSBatch[i])) :=
   C04_roundtrip_partial .fixed exSO {} "S" _ exSBatch exSFields exSArrs rfl (by decide +kernel) (by simp)
-    (by decide +kernel) (by decide +kernel) exExtOK (by decide +kernel) (by decide +kernel) exSTrace exSBuild
+    (by decide +kernel) (by decide +kernel) exExtOK (by decide +kernel) exSTrace exSBuild
 
 end SaModel.Props.C04
